@@ -7,7 +7,7 @@ import ast
 from ..core import Report
 from ..eqterms import equal, explain
 from ..model import Program
-from ..refs import eval_ref_function
+from ..refs import eval_ref_function, prelude
 from ..terms import C, Env, Interp, find_unknown, has_unknown, key, same, show, walk
 from .c07 import compare
 from .c13 import compare_guards
@@ -109,7 +109,7 @@ def rule_helpers(prog, rep):
     K, A, V = ("sym", "KEY"), ("sym", "ARRAYS"), ("sym", "VAL_PROP")
     gi, wi = Interp(prog), Interp(prog)
     got = gi.eval_function(TU + "train_val_split", [K, A, V])
-    want = wi.apply_def(ast.parse(SPLIT_REF).body[0], Env(), (m, None, None), [K, A, V], {})
+    want = wi.apply_def(ast.parse(SPLIT_REF).body[0], Env(prelude(prog)), (m, None, None), [K, A, V], {})
     compare(rep, "C15.partition", f"{m.relpath}:{fn.lineno}", "train_val_split", got, want, "(train, val)")
     m, fn = prog.func(TU + "_add_batch")
     AR, B = ("sym", "ARR"), ("sym", "BATCH_SIZE")
